@@ -19,7 +19,7 @@ from simkit import peers, sched
 from simkit.core import RunResult, ddmin_list, short_hash
 
 LEVEL = {"C12": "exploration"}
-TIERS = {"C12": (1600, 160, 50000, 1200)}
+TIERS = {"C12": (1800, 160, 50000, 1200)}
 PROBES = {"C12": ["fit_input_checked", "apply_input_checked", "twin_compared", "sibling_compared",
                   "parallel_fit_tasks", "parallel_apply_tasks", "interleave_schedule",
                   "pickle_midway", "nested_series_cells", "nested_array_cells", "numpy3d_input",
@@ -59,7 +59,7 @@ CLASSIFIERS = {
     "SupervisedTimeSeriesForest": {"n_estimators": [3, 4]},
     "RandomIntervalSpectralForest": {"n_estimators": [3], "min_interval": [8], "acf_lag": [4],
                                      "acf_min_values": [2]},
-    "BOSSEnsemble": {"max_ensemble_size": [2, 3]},
+    "BOSSEnsemble": {"max_ensemble_size": [2, 3, 50, 50]},
     "IndividualBOSS": {"window_size": [8], "word_length": [4]},
     "ContractableBOSS": {"n_parameter_samples": [4], "max_ensemble_size": [2]},
     "MUSE": {},
@@ -162,14 +162,23 @@ def generate(prop, rng, tier):
                       {"m": "transform", "which": w}]
     else:
         table = CLASSIFIERS if cat == "classifier" else REGRESSORS
-        name = rng.choice(sorted(table))
+        # (BOSSEnsemble has separate sequential and parallel code paths: sampled more often)
+        name = rng.choice(sorted(table) + (["BOSSEnsemble"] * 3 if cat == "classifier" else []))
         scen["name"] = name
         scen["params"] = {k: rng.choice(v) for k, v in table[name].items()}
         if name == "ColumnEnsembleClassifier" and rng.random() < 0.5:
             scen["params"]["_same"] = True   # both columns get equally configured members ...
             scen["shared_member"] = True     # ... and the primary is given one object twice
         scen["panel"] = {"n": rng.randint(8, 12), "cols": 2 if name in ("MUSE", "ColumnEnsembleClassifier") else 1,
-                         "len": rng.choice([24, 32])}
+                         "len": rng.choice([24, 32]),
+                         # hard-to-separate classes make ties at imperfect training accuracy
+                         "sep": rng.choice([1.5, 1.5, 0.8, 0.4])}
+        if scen["panel"]["sep"] < 1.5 and name in ("BOSSEnsemble", "ContractableBOSS"):
+            scen["panel"]["n"] = rng.randint(12, 20)
+        if name == "BOSSEnsemble" and rng.random() < 0.8:
+            scen["n_jobs"], scen["sib_n_jobs"] = rng.choice([(1, 2), (2, 1), (None, 4), (3, 1)])
+            scen["params"]["max_ensemble_size"] = 50
+            scen["panel"]["len"] = 32
         scen["container"] = rng.choice(["nested_series", "nested_series", "numpy3d"]) \
             if name != "ColumnEnsembleClassifier" else "nested_series"
         ms = ["predict", "predict_proba"] if cat == "classifier" else ["predict"]
@@ -255,10 +264,10 @@ def deep_equal(a, b):
 
 
 # ------------------------------------------------------------------ data
-def make_panel(seed, n, cols, length, container, index_kind):
+def make_panel(seed, n, cols, length, container, index_kind, sep=1.5):
     rs = np.random.RandomState(seed)
     arr = np.round(rs.normal(size=(n, cols, length)) + np.arange(length) * 0.05, 4)
-    arr[: n // 2, :, : length // 3] += 1.5  # two separable classes
+    arr[: n // 2, :, : length // 3] += sep  # two (more or less) separable classes
     y = np.array(["a"] * (n // 2) + ["b"] * (n - n // 2))
     yr = np.round(arr[:, 0, :].mean(axis=1) + rs.normal(size=n) * 0.1, 4)
     if container == "numpy3d":
@@ -425,9 +434,10 @@ def execute(prop, scen):
             return (wrap(y.iloc[5:5 + scen["n"]]),)
     else:
         p = scen["panel"]
-        X, yc, yr = make_panel(d["seed"], p["n"], p["cols"], p["len"], scen["container"], d["index"])
+        sep = p.get("sep", 1.5)
+        X, yc, yr = make_panel(d["seed"], p["n"], p["cols"], p["len"], scen["container"], d["index"], sep)
         Xte, _, _ = make_panel(d["seed"] + 1, max(4, p["n"] // 2), p["cols"], p["len"],
-                               scen["container"], d["index"])
+                               scen["container"], d["index"], sep)
         target = yr if cat == "regressor" else yc
         res.probe({"nested_series": "nested_series_cells", "nested_array": "nested_array_cells",
                    "numpy3d": "numpy3d_input"}[scen["container"]])
@@ -464,7 +474,7 @@ def execute(prop, scen):
 
         def other_train():
             Xo_, yo_, yro_ = make_panel(d["seed"] + 4, p["n"], p["cols"], p["len"], scen["container"],
-                                        d["index"])
+                                        d["index"], sep)
             return (Xo_, yro_ if cat == "regressor" else yo_)
 
         def do_call(est, c, args):
